@@ -184,7 +184,29 @@ func (g *Gen) drawIllegal(t *rapid.T, cl string) (Op, bool) {
 			return Op{}, false
 		}
 		r := pick(t, rels, "rel")
-		switch rapid.IntRange(0, 2).Draw(t, "how") {
+		switch rapid.IntRange(0, 3).Draw(t, "how") {
+		case 3: // Batch.SetRelation / Relations.SetBatch through a filter that also matches entities without the relation
+			lacking, ok := g.pickWith(t, func(s EntState) bool { return !s.Has(r) })
+			if !ok {
+				return Op{}, false
+			}
+			tgt, ok := g.pickWith(t, func(EntState) bool { return true })
+			if !ok {
+				return Op{}, false
+			}
+			// (a table whose current target already IS the new target is skipped before the component is
+			// looked at - whether that should panic is the ambiguity of DESIGN section 7; the entity found
+			// above must therefore sit in a table with another target, e.g. none)
+			if cur := m.Ents[lacking]; m.RelOf(cur.Comps) >= 0 && cur.Target == tgt {
+				return Op{}, false
+			}
+			// a filter that does not ask for the relation component: everything, or one plain component
+			// (it matches the entity found above)
+			f := &F{T: "mask"}
+			if has := m.Ents[lacking].EntState.List(); len(has) > 0 && rapid.Bool().Draw(t, "bycomp") {
+				f = &F{T: "mask", Ids: []int{pick(t, has, "comp")}}
+			}
+			return Op{K: OpBatchSetRel, F: f, C: r, T: tgt, Q: rapid.Bool().Draw(t, "q"), V: rapid.IntRange(0, 1).Draw(t, "viaRelations")}, true
 		case 0: // Relations.Set on an entity that lacks the relation component
 			e, ok := g.pickWith(t, func(s EntState) bool { return !s.Has(r) })
 			if !ok {
